@@ -106,8 +106,8 @@ def check_packet(ctx, M, kind, wire, rec, verify, label, mutate=True):
     # ---- mutants
     muts = []
     positions = list(range(len(wire)))
-    if len(positions) > ctx.n(60, 400):
-        positions = sorted(rng.sample(positions, ctx.n(60, 400)))
+    if len(positions) > ctx.n(60, 250):
+        positions = sorted(rng.sample(positions, ctx.n(60, 250)))
     for i in positions:
         vals = {wire[i] ^ 1, wire[i] ^ 0x80, (wire[i] + 1) & 255} if not (ctx.thorough and len(wire) < 120) else set(range(256))
         for b in vals:
@@ -171,7 +171,7 @@ def run(ctx):
     M = ctx.call
     keys = P.Keys.get()
     signers = keys.signers() + [('digest-interest', keys.signers(True)[0][1], None)]
-    for rnd in range(ctx.n(2, 40)):
+    for rnd in range(ctx.n(2, 12)):
         for label, sg, verify in signers:
             name, ip, app = P.rand_interest_args(rng)
             r = C01.one_interest(ctx, M, name, ip, app if rnd % 2 else rng.choice([None, b'', b'pp']), sg, label)
